@@ -10,7 +10,7 @@ from .facts import Facts
 
 VERIF = extract.VERIF
 KNOWN = os.path.join(VERIF, "known_findings.jsonl")
-EVID = os.path.join(VERIF, "evidence")
+EVID = os.environ.get("NVS_EVIDENCE") or os.path.join(VERIF, "evidence")  # the override is for selftest runs on a scratch copy
 
 
 class AnchorLost(Exception):
